@@ -92,6 +92,31 @@ def main(tier: str) -> int:
                 nonfail += 1
                 if len(samples) < 6:
                     samples.append({"family": fam, "value": hex(v), "unified": repr(out)})
+    # ... and the same with the library's loggers switched to DEBUG (records are built and formatted, then discarded): the
+    # conversion is total at every log level
+    import logging
+
+    class _Null(logging.Handler):
+        def emit(self, record):
+            record.getMessage()
+
+    lg = logging.getLogger("bellows")
+    old_level, old_disable = lg.level, logging.root.manager.disable
+    h = _Null()
+    logging.disable(logging.NOTSET)
+    lg.addHandler(h)
+    lg.setLevel(logging.DEBUG)
+    try:
+        for fam, v in cases():
+            n += 1
+            out, err = one(fam, v)
+            if err:
+                rep.add_violation(f"C18|{fam}|debug-logging|{v:#x}" if fam == "sl" else f"C18|{fam}|debug-logging", "with DEBUG logging enabled: " + err,
+                                  {"world": "c18", "family": fam, "value": v, "debug": True})
+    finally:
+        lg.removeHandler(h)
+        lg.setLevel(old_level)
+        logging.disable(old_disable)
     # The conversion must be a function of its argument alone (no hidden state, e.g. a cache keyed on the bare number):
     # the whole domain is converted again in every order of the three families, each in a *fresh interpreter*, and
     # every answer must equal the first pass.
